@@ -97,3 +97,49 @@ Lemma try_recv_end_closed id c p : cursor c id = Some p -> nth_error (log c) p =
 Proof. intros Hc Hn Hcl. unfold try_recv. now rewrite Hc, Hn, Hcl. Qed.
 
 End ChanFacts.
+
+(* ---- more facts (used by C20) ---- *)
+Section ChanFacts2.
+Variable A : Type.
+Implicit Types c : chan A.
+
+Lemma cursor_grow c n id : cursor (grow n c) id = cursor c id.  Proof. reflexivity. Qed.
+Lemma log_grow c n : log (grow n c) = log c.  Proof. reflexivity. Qed.
+Lemma closed_grow c n : closed (grow n c) = closed c.  Proof. reflexivity. Qed.
+Lemma rcv_grow c n : rcv (grow n c) = rcv c.  Proof. reflexivity. Qed.
+Lemma rcv_close c : rcv (close c) = rcv c.  Proof. reflexivity. Qed.
+Lemma closed_close c : closed (close c) = true.  Proof. reflexivity. Qed.
+Lemma tail_subscribe c id : tail (subscribe id c) = tail c.  Proof. reflexivity. Qed.
+Lemma tail_drop c id : tail (drop_rcv id c) = tail c.  Proof. reflexivity. Qed.
+Lemma tail_grow c n : tail (grow n c) = tail c.  Proof. reflexivity. Qed.
+Lemma tail_close c : tail (close c) = tail c.  Proof. reflexivity. Qed.
+
+Lemma log_clone c a b : log (clone_rcv a b c) = log c.
+Proof. unfold clone_rcv. now destruct (cursor c a). Qed.
+Lemma closed_clone c a b : closed (clone_rcv a b c) = closed c.
+Proof. unfold clone_rcv. now destruct (cursor c a). Qed.
+Lemma cursor_clone c a b id : cursor (clone_rcv a b c) id =
+  match cursor c id with Some q => Some q | None => if Nat.eqb b id then cursor c a else None end.
+Proof.
+  unfold clone_rcv. destruct (cursor c a) as [p|] eqn:E.
+  - unfold cursor, with_rcv. cbn [rcv]. rewrite cursor_in_app. reflexivity.
+  - destruct (cursor c id); [reflexivity|]. now destruct (Nat.eqb b id).
+Qed.
+
+Lemma cursor_in_none_nil l id : l = [] -> cursor_in l id = None.
+Proof. intros ->. reflexivity. Qed.
+Lemma cursor_some_rcv c id p : cursor c id = Some p -> rcv c <> [].
+Proof. unfold cursor. intros H E. rewrite E in H. discriminate. Qed.
+
+Lemma try_push_noreceiver x c : try_push x c = PNoRecv -> rcv c = [].
+Proof. unfold try_push. destruct (closed c); [discriminate|]. destruct (rcv c); [reflexivity|]. destruct (cap c <=? qlen c); discriminate. Qed.
+Lemma try_push_closed x c : try_push x c = PClosed -> closed c = true.
+Proof. unfold try_push. destruct (closed c); [reflexivity|]. destruct (rcv c); [discriminate|]. destruct (cap c <=? qlen c); discriminate. Qed.
+
+Lemma unread_push c c' x id p : cursor c id = Some p -> p <= tail c -> log c' = log c ++ [x] -> rcv c' = rcv c ->
+  unread c' id = unread c id ++ [x].
+Proof.
+  intros Hc Hp Hl Hr. unfold unread, cursor in *. rewrite Hr, Hc, Hl. unfold tail in Hp. now rewrite skipn_app, (proj2 (Nat.sub_0_le _ _) Hp).
+Qed.
+
+End ChanFacts2.
